@@ -35,7 +35,7 @@ RULE = (
     "Exhaustive sub-domain: every subset of a fixed branch universe (quick 12 names = 4096 subsets, thorough 14 names = 16384) x 60 "
     "versions. 1 case in 20 (thorough 1 in 60): git cases = such a branch set (always with master) materialised with git fast-import as a local-only "
     "repository or as a bare file:// remote that RallyRepository clones, optional v-tags, optional local branches left by earlier runs, "
-    "a start on a look-alike of the wanted branch (1.7 / 7.7 / 7.0 for 7), optionally an earlier update for a nearby version and an uncommitted local edit, "
+    "a start on a look-alike of the wanted branch (1.7 / 7.7 / 7.0 for 7), optionally an earlier update for a nearby version and an uncommitted local edit, optionally branches that were deleted upstream between the clone and the next run of Rally, "
     "then the real RallyRepository.update(version). Non-trivial = the reference's winning rule is prior-minor, major or master and the "
     "set contains >= 1 distractor (branch of another major or of a later minor). Distinct = distinct canonical JSON."
 )
